@@ -7,6 +7,7 @@ import random
 from collections import Counter
 
 import asyncstdlib as A
+from ..tools import AwaitablePayload
 
 from ..loop import CTX, drive, Suspend
 from ..probes import Item, canon
@@ -26,6 +27,7 @@ RULE = ("any_iter: item lists of length 0..6 x {plain, coroutine, custom awaitab
 RULE += (' Also: every planned failure sweeps the exception type; fault cases for any_iter / await_each / apply (item, iteration step, outer awaitable, function); leftovers untouched after an early close or failure; awaitables with value equality (hashable / unhashable) given to apply.')
 RULE += (' Also: a failing callable: the call sync(f)(x) itself must return an awaitable, the failure comes out of awaiting it.')
 RULE += (' Also: sync() of two related callables (wraps copy, object copy, bound methods, subclass) in both orders.')
+RULE += (' Also: what an awaitable resolves to may itself be awaitable payload (delivered, not awaited again).')
 ASSUMPTIONS = ["direct specification oracle (no stdlib twin exists for these helpers)"]
 EXHAUSTIVE = {"quick": True, "thorough": True}
 MAX_SHARDS = 8
@@ -317,7 +319,14 @@ def run_await_each_fault(case, stats):
 def run_any_iter(case, stats):
     CTX.reset()
     n = case["n"]
-    items = [Item(i, ("x", i)) for i in range(n)]
+
+    def wrapped(i):
+        kind = case["item_aw"]
+        return bool([False, True, "awaitobj"][i % 3] if kind == "mixed" else kind)
+
+    # what an item awaitable RESOLVES to may itself happen to be awaitable (a job handle): it is the item, delivered
+    # as it is - one layer is awaited, not "until nothing awaitable is left"
+    items = [AwaitablePayload(("x", i)) if wrapped(i) and i % 2 else Item(i, ("x", i)) for i in range(n)]
     awaited = []
     events = []
 
@@ -602,7 +611,8 @@ def run_apply(case, stats):
 def run_sync(case, stats):
     CTX.reset()
     flav, susp = case["flav"], case["susp"]
-    result = Item(1, "res")
+    # (where the callable hands out an awaitable, what THAT resolves to may again be awaitable: it is the result)
+    result = Item(1, "res") if flav in ("def", "callobj_plain", "def_raises", "notcallable") else AwaitablePayload("res")
     boom = EXC[case.get("exc", "KeyError")]("boom")
     calls = []
 
